@@ -274,11 +274,11 @@ Section Compose.
     in_universe slot_ok (r_cur (run_r rs0 (txs_flat ts ++ [OFinalise r]))) →
     root_r H (run_r rs0 (txs_flat ts ++ [OFinalise r])) = Some root.
   Proof.
-    intros Sy Hok Er Eir I Hh Hu.
+    intros Sy Hok Er Eir HI Hh Hu.
     destruct (ir_post H _ _ _ _ _ Eir) as (_ & _ & T & Ht & _).
     destruct (block_hashed H H_bytes addr_ok slot_ok Hk_addr Hk_slot (λ _, True) p cs0 ts cs r root cs1 T
                 Sy Hok Er Eir Ht I (λ _ _ _ _ _, I)) as [Hhashed Hroot].
-    destruct (run_refines _ _ _ I Hh) as [I' _].
+    destruct (run_refines _ _ _ HI Hh) as [I' _].
     assert (Ej : c_j cs1 = run_j (c_j cs0) (txs_flat ts ++ [OFinalise r])).
     { rewrite (ir_cj _ _ _ _ _ Eir) run_j_app -(run_txs_cj _ _ _ _ Er). done. }
     rewrite -Ej in I'.
